@@ -204,6 +204,15 @@ struct Sim {
             if (!need(2)) return false;
             txs.push_back(SpendTx({coins[0].op, coins[1].op, coins[0].op}, {coins[0].c.value}));
             rule_invalid = true;
+        } else if (kind == "dup_same_tx3") {      // (F:0, F:1, F:0): the duplicate is separated by a sibling output of the same earlier tx
+            const Avail *a = nullptr, *b = nullptr;
+            for (size_t i = 0; i < coins.size() && !a; i++)
+                for (size_t j = 0; j < coins.size(); j++)
+                    if (i != j && coins[i].op.hash == coins[j].op.hash && coins[i].op.n < coins[j].op.n) { a = &coins[i]; b = &coins[j]; break; }
+            if (!a) return false;
+            txs.push_back(SpendTx({a->op, b->op, a->op}, {a->c.value * 2 + b->c.value - 1000}));
+            rule_invalid = true;
+            o.fees = 1000;
         } else if (kind == "two_spenders") {      // two txs of one block spend the same outpoint
             if (!need(1)) return false;
             CAmount v = coins[0].c.value;
